@@ -183,14 +183,28 @@ func PlumbItem(id, kind string, s FSig) FItem {
 	}
 	switch kind {
 	case "curry":
-		fmt.Fprintf(&body, "\t\tw := deriveCurry%s(F%s)\n\t\tfor i := 0; i < t.N; i++ {\n%s\t\t\tt.Reset()\n\t\t\t%sw(a0)(%s)\n", id, id, argDecls(s.P, "\t\t\t"), assign(rs), join(as[1:]))
+		// an older partial application is kept alive and called after a newer one was made: the
+		// first argument it was given must still be the one it passes on
+		hs := vars("h", 0, len(s.R))
+		fmt.Fprintf(&body, "\t\tw := deriveCurry%s(F%s)\n\t\theldA0 := mon.Arg[%s](t, 0, t.N)\n\t\theld := w(heldA0)\n\t\tfor i := 0; i < t.N; i++ {\n%s\t\t\tpart := w(a0)\n\t\t\tt.Reset()\n\t\t\t%sheld(%s)\n\t\t\tt.Expect(\"curry/older-partial-application\", mon.C(%q%s))\n",
+			id, id, s.P[0], argDecls(s.P, "\t\t\t"), assign(hs), join(as[1:]), id, prefixComma(append([]string{"heldA0"}, as[1:]...)))
+		for _, h := range hs {
+			fmt.Fprintf(&body, "\t\t\t_ = %s\n", h)
+		}
+		fmt.Fprintf(&body, "\t\t\theld, heldA0 = part, a0\n\t\t\tt.Reset()\n\t\t\t%spart(%s)\n", assign(rs), join(as[1:]))
 	case "uncurrycurry":
 		fmt.Fprintf(&body, "\t\tw := deriveUncurry%s(deriveCurry%s(F%s))\n\t\tfor i := 0; i < t.N; i++ {\n%s\t\t\tt.Reset()\n\t\t\t%sw(%s)\n", id, id, id, argDecls(s.P, "\t\t\t"), assign(rs), join(as))
 	case "flip":
 		fl := append([]string{as[1], as[0]}, as[2:]...)
 		fmt.Fprintf(&body, "\t\tw := deriveFlip%s(F%s)\n\t\tfor i := 0; i < t.N; i++ {\n%s\t\t\tt.Reset()\n\t\t\t%sw(%s)\n", id, id, argDecls(s.P, "\t\t\t"), assign(rs), join(fl))
 	case "apply":
-		fmt.Fprintf(&body, "\t\tfor i := 0; i < t.N; i++ {\n%s\t\t\tw := deriveApply%s(F%s, %s)\n\t\t\tt.Reset()\n\t\t\t%sw(%s)\n", argDecls(s.P, "\t\t\t"), id, id, as[n-1], assign(rs), join(as[:n-1]))
+		hs := vars("h", 0, len(s.R))
+		fmt.Fprintf(&body, "\t\theldLast := mon.Arg[%s](t, %d, t.N)\n\t\theld := deriveApply%s(F%s, heldLast)\n\t\tfor i := 0; i < t.N; i++ {\n%s\t\t\tw := deriveApply%s(F%s, %s)\n\t\t\tt.Reset()\n\t\t\t%sheld(%s)\n\t\t\tt.Expect(\"apply/older-application\", mon.C(%q%s))\n",
+			s.P[n-1], n-1, id, id, argDecls(s.P, "\t\t\t"), id, id, as[n-1], assign(hs), join(as[:n-1]), id, prefixComma(append(append([]string{}, as[:n-1]...), "heldLast")))
+		for _, h := range hs {
+			fmt.Fprintf(&body, "\t\t\t_ = %s\n", h)
+		}
+		fmt.Fprintf(&body, "\t\t\theld, heldLast = w, %s\n\t\t\tt.Reset()\n\t\t\t%sw(%s)\n", as[n-1], assign(rs), join(as[:n-1]))
 	case "uncurry":
 		inner := ftypeOf(s.P[1:], 1, s.R, s.Mode)
 		outer := "func(" + strings.TrimPrefix(strings.TrimSuffix(ftypeOf(s.P[:1], 0, nil, s.Mode), ")"), "func(") + ") " + inner
